@@ -76,6 +76,19 @@ add("C13", "exploration",
     "Resids fixed under relabelling; first header line of files ignored; known finding F13 (non-edge vetoes depend on link order) tolerated by predicate.",
     "§2 C13")
 
+add("C17", "model_checking",
+    "stateless deviation-bounded exploration of the real gen_coords under a chooser with injected step / attempt failures",
+    "Every schedule of up to 3 (thorough 4) injected placement-step failures and abandoned molecule attempts, combined with one "
+    "direction and one start-point deviation, is executed against the real gen_coords on linear, branched and cyclic molecules "
+    "with and without pre-positioned residues, for nrewind 1-5 and attempt limits 0-2; executions always run to completion. "
+    "Monitors mirror every engine event into a dict and check at every step that the parent is positioned, the residue is "
+    "placed once, everything later in the growth order is unpositioned (rollback complete), retries start clean, accepted "
+    "molecules are frozen and the end state has one position per residue. The rewind, retry and give-up branches the suite never "
+    "runs are taken thousands of times.",
+    "6 axis directions as the direction sample; injected failure == update_positions returning False without placing; "
+    "horizon 400 chooser calls (cuts counted); ownership of all random sources proved per execution by comparing RNG states.",
+    "§3 C17")
+
 for _p in ["C03", "C04", "C05", "C06", "C07", "C08", "C09", "C12",
-           "C15", "C17", "C18", "C20"]:
+           "C15", "C18", "C20"]:
     NOT_YET[_p] = "check under construction in this session (bounded exhaustive exploration applies; see DESIGN.md)"
